@@ -47,8 +47,8 @@ Proof. intros H. rewrite !forallb_forall. auto. Qed.
 Lemma existsb_impl {A} (p q : A -> bool) l : (forall x, p x = true -> q x = true) -> existsb p l = true -> existsb q l = true.
 Proof. intros H. rewrite !existsb_exists. intros (x & I & P). exists x; auto. Qed.
 
-Lemma rule_view_deny_wider tcp ru r :
-  when_known ru = true -> rule_matches ru r = true -> rule_view_matches tcp false ru r = true.
+Lemma rule_view_deny_wider tcp pns ru r :
+  when_known pns ru = true -> rule_matches pns ru r = true -> rule_view_matches tcp false pns ru r = true.
 Proof.
   intros K H. unfold rule_view_matches. rewrite K. cbn [negb]. unfold rule_matches in H.
   apply andb_true_iff in H. destruct H as [H H3]. apply andb_true_iff in H. destruct H as [H1 H2].
@@ -59,17 +59,17 @@ Proof.
   - apply orb_true_iff in H2. apply orb_true_iff. destruct H2 as [H2|H2]; [now left|right].
     revert H2. apply existsb_impl. intros o. unfold operation_matches. apply forallb_impl.
     intros c. apply cond_view_wider.
-  - revert H3. apply forallb_impl. intros w. unfold when_sem. destruct (when_cond w); [|discriminate].
+  - revert H3. apply forallb_impl. intros w. unfold when_sem. destruct (when_cond pns w); [|discriminate].
     apply cond_view_wider.
 Qed.
 
-Lemma rule_view_allow_narrower tcp ru r : rule_view_matches tcp true ru r = true -> rule_matches ru r = true.
+Lemma rule_view_allow_narrower tcp pns ru r : rule_view_matches tcp true pns ru r = true -> rule_matches pns ru r = true.
 Proof.
-  unfold rule_view_matches. destruct (negb (when_known ru)); [discriminate|].
+  unfold rule_view_matches. destruct (negb (when_known pns ru)); [discriminate|].
   intros H. apply andb_true_iff in H. tauto.
 Qed.
 
-Definition all_when_known (ps : list policy) : bool := forallb (fun p => forallb when_known (p_rules p)) ps.
+Definition all_when_known (ps : list policy) : bool := forallb (fun p => forallb (when_known (p_ns p)) (p_rules p)) ps.
 
 Theorem view_never_more_permissive tcp ps r :
   all_when_known ps = true -> decision_view tcp ps r = true -> decision ps r = true.
